@@ -57,6 +57,7 @@ func c04GobEPs() []c04GobEP {
 		func() gob.GobDecoder { return new(ap.LangRef) }, func() gob.GobDecoder { return new(ap.Content) },
 		func() gob.GobDecoder { return new(ap.NaturalLanguageValues) }, func() gob.GobDecoder { return new(ap.Source) },
 		func() gob.GobDecoder { return new(ap.PublicKey) }, func() gob.GobDecoder { return new(ap.Endpoints) },
+		func() gob.GobDecoder { return new(ap.LangRefValue) },
 	} {
 		z := z
 		eps = append(eps, c04GobEP{reflect.TypeOf(z()).Elem().Name() + ".GobDecode", func(b []byte) (any, error) { v := z(); return v, v.GobDecode(b) }})
@@ -90,10 +91,13 @@ func c04GobKeys() []string {
 
 type c04kv struct{ K, V []byte }
 
+// number of byte-string shapes of c04GobLeaf
+const c04NShapes = 23
+
 // byte strings of every shape, [i] picks the shape; depth bounds the nesting
 func c04GobLeaf(g *Gen, i int, depth int) []byte {
 	types := []string{"Note", "Create", "Person", "Link", "Mention", "Bogus", "IRI", "OrderedCollectionPage", "Question", "Place", "Tombstone", "Relationship", "Profile", "Collection", "Travel", ""}
-	switch i % 22 {
+	switch i % c04NShapes {
 	case 0:
 		return nil
 	case 1:
@@ -111,7 +115,7 @@ func c04GobLeaf(g *Gen, i int, depth int) []byte {
 		l := make([][]byte, n)
 		for k := range l {
 			if depth > 0 {
-				l[k] = c04GobLeaf(g, g.Intn(22), depth-1)
+				l[k] = c04GobLeaf(g, g.Intn(c04NShapes), depth-1)
 			} else {
 				l[k] = []byte("https://example.com/x")
 			}
@@ -151,6 +155,8 @@ func c04GobLeaf(g *Gen, i int, depth int) []byte {
 		return b
 	case 20:
 		return gobBytes("a gob string")
+	case 21: // one kv struct: what LangRefValue.GobEncode writes
+		return gobBytes(c04kv{[]byte([]string{"en", "-", ""}[g.Intn(3)]), []byte("one value")})
 	default:
 		return gobBytes([]string{"x"})
 	}
@@ -167,7 +173,7 @@ func c04GobMapOf(g *Gen, depth int) map[string][]byte {
 		m["type"] = c04GobLeaf(g, 2, 0)
 	}
 	for k := g.Intn(5); k >= 0; k-- {
-		m[c04GobKeyList[g.Intn(len(c04GobKeyList))]] = c04GobLeaf(g, g.Intn(22), depth)
+		m[c04GobKeyList[g.Intn(len(c04GobKeyList))]] = c04GobLeaf(g, g.Intn(c04NShapes), depth)
 	}
 	return m
 }
@@ -203,7 +209,7 @@ func c04GobInputs(g *Gen, n int, thorough bool) (inputs [][]byte, labels []strin
 		shapes := []int{ki}
 		if thorough {
 			shapes = nil
-			for s := 0; s < 22; s++ {
+			for s := 0; s < c04NShapes; s++ {
 				shapes = append(shapes, s)
 			}
 		} else {
@@ -211,11 +217,15 @@ func c04GobInputs(g *Gen, n int, thorough bool) (inputs [][]byte, labels []strin
 		}
 		for _, s := range shapes {
 			m := map[string][]byte{"type": []byte(c04TypeForKey(key)), "id": []byte("https://example.com/x"), key: c04GobLeaf(g, s, 1)}
-			add(gobBytes(m), fmt.Sprintf("key %q holds shape %d", key, s%22))
+			add(gobBytes(m), fmt.Sprintf("key %q holds shape %d", key, s%c04NShapes))
 		}
 	}
+	// every shape at top level: each leaf decoder sees its own shape and every foreign one
+	for s := 0; s < c04NShapes; s++ {
+		add(c04GobLeaf(g, s, 1), fmt.Sprintf("top-level byte string of shape %d", s))
+	}
 	// the leaf structs with wrong shapes inside
-	for s := 0; s < 22; s++ {
+	for s := 0; s < c04NShapes; s++ {
 		add(gobBytes(map[string][]byte{"type": []byte("Person"),
 			"endpoints": gobBytes(map[string][]byte{"sharedInbox": c04GobLeaf(g, s, 1), "uploadMedia": c04GobLeaf(g, s+5, 1), "bogus": nil}),
 			"publicKey": gobBytes(map[string][]byte{"id": c04GobLeaf(g, s, 0), "owner": c04GobLeaf(g, s+1, 0), "publicKeyPem": c04GobLeaf(g, s+2, 0)}),
